@@ -49,6 +49,26 @@ def to_lib_variant(g, obj, k):
     general form a x + b y + c z = d with a non-unit (a, b, c); a polygon / polyhedron / segment / half-line / line built elsewhere and moved
     into place in place (the receiver of move() is used, not its return value)"""
     kind = obj[0]
+    if k % 5 == 3:
+        # every coordinate a fractions.Fraction (the library keeps exact types; its own results are floats, so the two meet inside the handlers)
+        return O.to_lib(obj, "allfraction")
+    if k % 5 == 4 and kind in ("Segment", "HalfLine", "Line", "Plane"):
+        # the other documented constructor forms
+        num = lambda t: [O.to_number(c, "float") for c in t]
+        if kind == "Segment":
+            return g.Segment(g.Point(*num(obj[1])), g.Vector(*num(O.sub(obj[2], obj[1]))))
+        if kind == "HalfLine":
+            return g.HalfLine(g.Point(*num(obj[1])), g.Point(*num(O.add(obj[1], obj[2]))))
+        if kind == "Line":
+            if (k // 5) % 2:
+                return g.Line(g.Vector(*num(obj[1])), g.Vector(*num(obj[2])))
+            return g.Line(g.Point(*num(obj[1])), g.Point(*num(O.add(obj[1], obj[2]))))
+        if kind == "Plane":
+            # three points of the plane: the support point and two in-plane lattice directions
+            n = obj[2]
+            cands = [c for c in (O.cross(n, (1, 0, 0)), O.cross(n, (0, 1, 0)), O.cross(n, (0, 0, 1))) if any(x != 0 for x in c)]
+            u, w = cands[0], O.cross(n, cands[0])
+            return g.Plane(g.Point(*num(obj[1])), g.Point(*num(O.add(obj[1], u))), g.Point(*num(O.add(obj[1], w))))
     if k % 3 == 1 and kind == "Plane":
         nn = obj[2]
         return g.Plane(*([O.to_number(c, "float") for c in nn] + [O.to_number(O.dot(nn, obj[1]), "float")]))
@@ -116,7 +136,11 @@ def check_intersection_case(g, a, b, klass, acc, label, faces=False):
     acc.case(klass)
     variant = acc.ev  # rotates through the ways of building the operands
     try:
-        A, B = to_lib_variant(g, a, variant), to_lib_variant(g, b, variant // 3)
+        if variant % 5 == 3:  # one numeric type per case: both operands in Fractions
+            A, B = O.to_lib(a, "allfraction"), O.to_lib(b, "allfraction")
+        else:
+            vb = variant // 3
+            A, B = to_lib_variant(g, a, variant), to_lib_variant(g, b, vb)  # (this also mixes a Fraction operand with a float one)
     except Exception as e:
         acc.fail(klass, "building the operands (variant %d) raised %r" % (variant, e), dict(a=ser(a), b=ser(b), label=label, variant=variant))
         return
@@ -203,7 +227,11 @@ def check_membership_case(g, cont, x, klass, acc):
         return
     acc.case(klass)
     try:
-        Cn, X = to_lib_variant(g, cont, acc.ev), to_lib_variant(g, x, acc.ev // 3)
+        if acc.ev % 5 == 3:
+            Cn, X = O.to_lib(cont, "allfraction"), O.to_lib(x, "allfraction")
+        else:
+            vb = acc.ev // 3
+            Cn, X = to_lib_variant(g, cont, acc.ev), to_lib_variant(g, x, vb)
     except Exception as e:
         acc.fail(klass, "building the operands raised %r" % (e,), dict(container=ser(cont), x=ser(x)))
         return
